@@ -187,3 +187,26 @@ Definition footprints_ordered : bool :=
 Definition callbacks_unlocked : bool :=
   forallb (fun m => forallb (fun s => is_store_call s || match s_held s with [] => true | _ => false end)
                             (eff_scalls depth [] m)) entries.
+
+(* ---------- check-then-act on one field: an entry point (own helpers inlined) that both reads and writes a shared field (look a name up in a
+   map, insert when absent; test a channel, set it) must do so inside ONE critical section: it acquires the mutex that
+   covers its accesses to the field exactly once, not inside a loop ---------- *)
+Definition rmw_fields (m : meth) : list string :=
+  let accs := eff_accs depth [] m in
+  nodup string_dec (map a_field (filter (fun a => is_shared_acc a && a_write a &&
+      existsb (fun b => String.eqb (a_field b) (a_field a) && negb (a_write b)) accs) accs)).
+Definition rmw_one (m : meth) (f : string) : bool :=
+  existsb (fun l =>
+    forallb (fun a => negb (String.eqb (a_field a) f) || heldb l (a_write a) (a_held a)) (eff_accs depth [] m) &&
+    match filter (fun q => String.eqb (q_lock q) l) (eff_acqs depth [] m) with
+    | [q] => negb (q_loop q)
+    | _ => false
+    end) all_locks.
+(* GetStoreConfig looks the store name up (read lock), then opens the configuration side store "<name>_formattedstore_
+   storeconfig" through OpenStore (write lock): the insert concerns the side store's own entry, not the name looked up *)
+Definition rmw_exempt : list (string * string) :=
+  [("formattedstore.FormattedProvider.GetStoreConfig", "formattedstore.FormattedProvider.openStores")].
+Definition split_rmw : list (string * string) :=
+  filter (fun x => negb (existsb (fun y => String.eqb (fst x) (fst y) && String.eqb (snd x) (snd y)) rmw_exempt))
+    (flat_map (fun m => map (fun f => (m_name m, f)) (filter (fun f => negb (rmw_one m f)) (rmw_fields m))) entries).
+Definition rmw_ok : bool := match split_rmw with [] => true | _ => false end.
